@@ -47,6 +47,8 @@ def gen_cases(tier, seed):
             cases.append({"id": f"ex3s_{i // 16}", "family": "exh", "k": 3, "cfg_seed": [seed, "k3", 0], "masks": [list(s) for s in pick[i : i + 16]]})
     for i in range(160 if tier == "quick" else 2500):
         cases.append({"id": f"rnd{i}", "family": "rnd", "seed": [seed, "rnd", i]})
+    for i in range(60 if tier == "quick" else 600):
+        cases.append({"id": f"ddp{i}", "family": "ddp", "seed": [seed, "c04ddp", i], "interleavings": 1, "backend": "threaded"})
     return cases
 
 
@@ -76,6 +78,18 @@ def _features(cfg):
 def run_case(case):
     from .. import gen as G
     from ..common import KernelObserver
+
+    if case["family"] == "ddp":
+        # the DDP distributor keeps its own masked lists: same shadow check on every simulated rank (worlds shared with C06)
+        from . import c06
+
+        out = c06.run_case(case)
+        c = out["counters"]
+        c["ddp_absent_params_checked"] = c.pop("absent_params_checked", 0)
+        c["ddp_worlds"] = c.pop("evals", 0)
+        c["evals"] = c["ddp_absent_params_checked"]
+        c.pop("set_interleavings", None)
+        return {"counters": c, "sigs": [["ddp"] + s_ for s_ in out["sigs"]] if c["ddp_absent_params_checked"] else [], "sample": out["sample"]}
 
     counters = {}
     sigs = []
@@ -133,6 +147,6 @@ def run_case(case):
 
 
 def conclusive(agg, results, tier):
-    need = {"absent_block_steps": 2000, "block_steps": 3000, "mask_changes": 1000, "all_absent_group_steps": 100}
+    need = {"absent_block_steps": 2000, "block_steps": 3000, "mask_changes": 1000, "all_absent_group_steps": 100, "ddp_absent_params_checked": 200}
     low = {k: agg.get(k, 0) for k in need if agg.get(k, 0) < need[k]}
     return f"too few observations: {low}" if low else None
